@@ -389,8 +389,10 @@ fn parse_atom(s: &str) -> Result<Atom, String> {
 
     let relation = s[..paren_pos].trim().to_string();
 
-    // Extract arguments - find matching closing parenthesis
-    let args_str = s[paren_pos + 1..].trim_end_matches(')').trim();
+    // Extract arguments: everything up to the atom's own closing parenthesis. Only that one `)`
+    // is removed - an argument may itself end in `)` (function call, parenthesised arithmetic).
+    let rest = s[paren_pos + 1..].trim_end();
+    let args_str = rest.strip_suffix(')').unwrap_or(rest).trim();
 
     let args = if args_str.is_empty() {
         vec![]
